@@ -24,6 +24,7 @@ func init() {
 	work.Register("C09", "c09.long", c09Long)
 	work.Register("C09", "c09.faults", c09Faults)
 	work.Register("C09", "c09.multi", c09Multi)
+	work.Register("C09", "c09.strings", c09Strings)
 }
 
 var errInjected = errors.New("injected reader failure")
@@ -645,4 +646,122 @@ func c09Multi(c *work.Ctx) {
 			c.EndCase()
 		}
 	}
+}
+
+// ---- string contents under every cut ----------------------------------------------------------
+
+// c09Strings: every string literal made of at most 3 (thorough: 4) content atoms — plain byte,
+// simple escapes, \u escapes (BMP and surrogate pair), raw 2/3/4-byte characters, an ill-formed
+// byte — in four positions (top-level string, slice element, map key, struct member), decoded
+// under every single cut (thorough: every pair of cuts), with EOF attached, and in fixed pieces
+// of 1..8 bytes. The decoder keeps a running account of the buffered length while it unescapes
+// in place; these are the inputs on which an earlier atom's bookkeeping decides how a later
+// atom that straddles a cut is read.
+func c09Strings(c *work.Ctx) {
+	atoms := []string{"a", `\n`, `\"`, `\\`, `\u00e9`, `\ud83d\ude00`, "é", "€", "😀", "\xff"}
+	maxLen := 3
+	if !c.Quick() {
+		maxLen = 4
+	}
+	type wrap struct {
+		name     string
+		pre, suf string
+		dest     int
+	}
+	find := func(name string) int {
+		for i := range c09Dests {
+			if c09Dests[i].name == name {
+				return i
+			}
+		}
+		panic("no destination " + name)
+	}
+	wraps := []wrap{
+		{"string", `"`, `"`, find("string")},
+		{"[]string element", `["`, `","z"]`, find("[]string")},
+		{"map key", `{"`, `":1}`, find("map[string]int")},
+		{"struct member", `{"a":1,"b":"`, `"}`, find("struct{A int;B string}")},
+		{"interface{}", `["`, `"]`, find("interface{}")},
+	}
+	var gen func(cur []string, n int)
+	emit := func(parts []string) {
+		body := strings.Join(parts, "")
+		shape := strings.Join(func() []string {
+			var s []string
+			for _, p := range parts {
+				switch {
+				case p == "a":
+					s = append(s, "byte")
+				case p == "\xff":
+					s = append(s, "ill-formed")
+				case p[0] == '\\' && len(p) == 2:
+					s = append(s, "escape")
+				case p[0] == '\\' && len(p) == 6:
+					s = append(s, `\u`)
+				case p[0] == '\\':
+					s = append(s, `\u-pair`)
+				default:
+					s = append(s, fmt.Sprintf("utf8x%d", len(p)))
+				}
+			}
+			return s
+		}(), " ")
+		for _, w := range wraps {
+			doc := w.pre + body + w.suf
+			b := []byte(doc)
+			d := &c09Dests[w.dest]
+			if !c.BeginS("string atoms: " + w.name + " <- " + doc) {
+				continue
+			}
+			buf := bufferOutcome(b, d.t, d.num)
+			whole := streamOutcome(bytes.NewReader(b), d.t, d.num)
+			c.Outcome(whole)
+			if buf != whole {
+				cause := shape
+				if strings.Contains(body, "\xff") && c09Verdicts(buf) == c09Verdicts(whole) {
+					// one root cause whatever surrounds the byte: Unmarshal keeps an ill-formed byte, the typed stream path replaces it
+					cause = "value differs, the string contains an ill-formed UTF-8 byte"
+				}
+				c.Violation(fmt.Sprintf("string contents : %s : stream-vs-buffer : %s", w.name, cause), doc,
+					fmt.Sprintf("Unmarshal %s ; Decoder on the whole input %s", clip([]byte(buf)), clip([]byte(whole))))
+			}
+			try := func(r *chunkReader, what string) {
+				got := streamOutcome(r, d.t, d.num)
+				c.Count("chunked_decodes", 1)
+				if got != whole {
+					c.Violation(fmt.Sprintf("string contents chunking-dependent : %s : %s : %s", w.name, shape, c09Verdicts(whole)+" -> "+c09Verdicts(got)), doc,
+						fmt.Sprintf("%s: whole-input reader gives %s ; this reader gives %s", what, clip([]byte(whole)), clip([]byte(got))))
+				}
+			}
+			n := len(b)
+			for k := 1; k < n; k++ {
+				try(&chunkReader{data: b, cuts: []int{k}, zeroAt: -1, failAt: -1}, fmt.Sprintf("cut at %d", k))
+				try(&chunkReader{data: b, cuts: []int{k}, eofWith: true, zeroAt: -1, failAt: -1}, fmt.Sprintf("cut at %d, EOF with the last piece", k))
+				if !c.Quick() {
+					for k2 := k + 1; k2 < n; k2++ {
+						try(&chunkReader{data: b, cuts: []int{k, k2}, zeroAt: -1, failAt: -1}, fmt.Sprintf("cuts at %d,%d", k, k2))
+					}
+				}
+			}
+			for ps := 1; ps <= 8; ps++ {
+				try(&chunkReader{data: b, pieceSize: ps, zeroAt: -1, failAt: -1}, fmt.Sprintf("piece size %d", ps))
+			}
+			if c.WantSample() {
+				c.Sample(fmt.Sprintf("%s <- %q under every cut", w.name, doc))
+			}
+			c.EndCase()
+		}
+	}
+	gen = func(cur []string, n int) {
+		if len(cur) > 0 {
+			emit(cur)
+		}
+		if n == 0 {
+			return
+		}
+		for _, a := range atoms {
+			gen(append(cur, a), n-1)
+		}
+	}
+	gen(nil, maxLen)
 }
